@@ -107,6 +107,12 @@ def _sodium(t):
     t[9]["name"], t[9]["element"] = "NA", "NA"
 
 
+def _segid(t):
+    """A segment identifier in columns 73-76 of every record (PDB text only; it is not a chain identifier and no field of the property)."""
+    for a in t:
+        a["segid"] = "RNA" + a["chain"].strip()[:1]
+
+
 def _serial_offset(off):
     def f(t):
         for a in t:
@@ -155,6 +161,10 @@ def deviations():
     d.append(_name_el(1, "O3*", "O"))
     d.append(_name_el(8, "C5M", "C"))
     d.append(_sodium)
+    d.append(_segid)
+    d.append(_model_numbers(0, 1))
+    # the last atom carries serial 99999 (one model: 12 atoms from 99988): every field fits, the TER record after it needs the next number
+    d.append(_serial_offset(99987))
     return d
 
 
@@ -172,9 +182,10 @@ def cases(tier):
     import itertools
 
     blank = [k for k, f in enumerate(DEVS) if f.__name__ == "residue@0.chain=' '"][0]
+    segid = [k for k, f in enumerate(DEVS) if f.__name__ == "_segid"][0]
     for c in enumio.combos(DEVS, 2):
         for fmt in ("PDB", "mmCIF"):
-            if fmt == "mmCIF" and blank in c:
+            if fmt == "mmCIF" and (blank in c or segid in c):
                 continue
             yield dict(devs=list(c), start=fmt)
     if tier != "quick":
